@@ -58,6 +58,17 @@ def shard(a):
     res = core.Result()
     name = a['mod']
     core.drive(prop, strategy(name), a['n'], (a['seed'], 'C02', name), res, shrink_skip=a['known'])
+    # every corpus number once in a few fixed presentations (rare kinds of number: one-stop-shop VAT numbers, ...)
+    pr = gen.probe(name)
+    seps = [c for c in ' -./' if c in pr['neutral']]
+    for v in gen.pool(name)[:a.get('npool', 1000)]:
+        xs = [' ' + v + ' ', v.lower(), v.upper()]
+        if seps and len(v) > 2:
+            xs.append(v[:2] + seps[0] + v[2:len(v) // 2] + seps[-1] + v[len(v) // 2:])
+        for pre in pr['prefixes'][:2]:
+            xs.append(pre.lower() + ' ' + v)
+        for x in xs:
+            prop({'mod': name, 'x': x, 'opts': {}, 'clock': None}, res)
     extra = gen.extra_valid(name)
     if extra is not None:
         # registry / table walking generator: every branch of the table the module consumes (court names, agencies, ...)
